@@ -501,6 +501,17 @@ class _Num:
         if not isinstance(o, (I, R, int, float, Fraction, B)):
             return NotImplemented
         if not sx.REAL_MODE:
+            if isinstance(o, int) and not isinstance(o, bool) and o > 0 and Ctx.cur is not None:
+                # integer-time mode: x / d for a concrete positive d is modelled for exactly divisible x only
+                # (stated bound); the quotient is a fresh integer q with q * d == x
+                q = z3.Int(Ctx.cur.fresh_name('quot'))
+                Ctx.cur.assume(q * o == self.z)
+                return R(q)
+            if isinstance(o, int) and not isinstance(o, bool) and o > 0 and Ctx.cur is None:
+                v = z3.simplify(self.z)
+                if z3.is_int_value(v) and v.as_long() % o == 0:
+                    return R(z3.IntVal(v.as_long() // o))
+                return v.as_long() / o
             raise Inconclusive('true division in integer-time mode')
         return R(zr(self) / zr(o))
 
